@@ -30,6 +30,9 @@ CLAIMED = {
  "C13": dict(cat="proof", ref="DESIGN.md 4 (C13)",
   text="Per-iteration step contracts of the payload-chain walker, proved for every iteration (the loop is cut at its head with an inferred invariant, so the position in the chain and the chain length are unbounded): an unsupported type (all 239 codes are one symbolic value) with the critical bit clear leaves the container untouched and continues with exactly (next = octet 0, rest = bytes after the stated length); with the critical bit set the iteration can only leave through the error return; for implemented types exactly one element is appended and octet 1 plays no role.",
   note="The whole-message corollary ('decodes exactly as the same message without them') follows from the step contract by induction over the chain; the induction itself is an argument in DESIGN.md, not a discharged obligation."),
+ "C16": dict(cat="proof", ref="DESIGN.md 4 (C16), 9.2",
+  text="EapAkaPrimePRF is executed symbolically against a textbook PRF' written in the lemma over the standard library's HMAC (T1 = HMAC(K, S|1), Tn = HMAC(K, T(n-1)|S|n)); HMAC-SHA-256 is an uninterpreted function over abstract byte-string values, so the comparison holds for every IK', CK' (any lengths >= 1) and identity string. Both loops have the constant trip count 7 and are unrolled completely with the unwinding assertion on (complete, not bounded). Obligations: empty IK'/CK' refused; result lengths 16/32/32/64/64; each result equals the stated octet range of T1|..|T7.",
+  note="HMAC-SHA-256 is uninterpreted (only its output length is used); byte-string extensionality is instantiated for every pair of HMAC arguments; input lengths up to 2^40."),
  "C19": dict(cat="proof", ref="DESIGN.md 4 (C19)",
   text="Every builder and constructor is loop-free; its lemma function proves for all arguments and any prior container content that exactly one element is appended, earlier elements are untouched, the new element's dynamic type and fields equal the arguments (byte strings by content, in fresh storage), NewHeader sets version 2.0 and exactly the 0x20/0x08 flag bits which IsResponse/IsInitiator report back, and the 3GPP helpers emit the TS 24.502 layouts written into the lemmas, with errors (not truncation) for oversize arguments.",
   note="net.ParseIP(...).To4() is an assumed contract."),
